@@ -14,7 +14,6 @@ import (
 	"sort"
 	"strings"
 	"testing"
-	"testing/synctest"
 	"time"
 
 	"github.com/google/fhir/go/fhirversion"
@@ -862,7 +861,7 @@ func execC18(t *testing.T, c *Case) *Verdict {
 		}
 	}()
 	var sdig string
-	synctest.Test(t, func(t *testing.T) {
+	runBubble(t, func(t *testing.T) {
 		start := time.Now()
 		time.Sleep(time.Duration(c.ClockMs) * time.Millisecond)
 		v.Stats.SubRuns++
